@@ -59,6 +59,7 @@ def gen_cases(tier, seed):
     for i in range(0, len(idx), per):
         yield {"kind": "around", "idx": idx[i:i + per]}
     yield {"kind": "npint", "hi": 4096}
+    yield {"kind": "keyword"}
     # NumPy integer scalars as N (every width that can hold the value), asked BEFORE the Python int of the same value
     # (the memo treats them as one key): around every prime power and a rotating slice of the smooth numbers
     npidx = sorted(pp | set(range(seed % 97, n62, 97)))
@@ -108,6 +109,19 @@ def check_case(case):
                 res.hits["N above 2^40"] += 1
         s = lst[case["idx"][-1]]
         res.sample({"N": s + 1, "next": nfl(s + 1), "prev": pfl(s + 1)}, 1)
+    elif kind == "keyword":
+        # N passed by keyword, many different values in a row (a memo must key on the value however it is passed)
+        for n in list(range(0, 300)) + [4097, 4102, 2 ** 40 + 12345, 11, 12, 11]:
+            for fn_name, fn, ref in (("next_fast_len", nfl, smooth.ref_next), ("prev_fast_len", pfl, smooth.ref_prev)):
+                got = fn(N=n)
+                res.transitions += 1
+                res.traces += 1
+                res.state((fn_name, "keyword", n))
+                if type(got) is bool or got != ref(n, lst):
+                    res.violation(f"{fn_name}|keyword argument|wrong value", f"{fn_name}(N={n}) = {got!r}, nearest 7-smooth is {ref(n, lst)}",
+                                  case, {"N": n})
+                    break
+        res.hits["N passed by keyword"] += 1
     elif kind == "npint":
         for n in range(case["hi"]):
             for fn_name, fn, ref in (("next_fast_len", nfl, smooth.ref_next), ("prev_fast_len", pfl, smooth.ref_prev)):
@@ -173,6 +187,20 @@ def check_case(case):
                 res.hits["fast_len cropped"] += 1
             else:
                 res.hits["fast_len kept all"] += 1
+            # flagged data (a masked array): the retained samples keep their flags
+            if L in (11, 16, 23, 53) and z.dtype.kind in "fc":
+                msk = (np.arange(int(np.prod(z.shape))).reshape(z.shape) % 3 == 0)
+                zm = type(z).like(z, np.ma.MaskedArray(np.array(np.asarray(z.data)), mask=msk))
+                if isinstance(zm.data, np.ma.MaskedArray):
+                    om = pb.fast_len(zm)
+                    res.transitions += 1
+                    if not isinstance(om.data, np.ma.MaskedArray) or len(om) != want or \
+                            not np.array_equal(np.ma.getmaskarray(om.data), msk[:want]) or \
+                            not np.array_equal(np.asarray(np.ma.getdata(om.data)), np.asarray(z.data)[:want]):
+                        res.violation("fast_len|masked data", f"L={L}: the retained samples lost their mask or values "
+                                      f"({type(om.data).__name__})", case, sub)
+                    else:
+                        res.hits["fast_len on masked data"] += 1
             # the same on Dask-backed data, one chunk and several chunks along time
             if L % 3 == case["lmax"] % 3 or L < 40:
                 import dask.array as da
@@ -201,7 +229,7 @@ def main(argv=None):
     return report.run_check(
         PID, gen_cases=gen_cases, check_case=check_case, describe=describe,
         required_hits=["N itself smooth", "N not smooth", "N above 2^40", "fast_len cropped", "fast_len kept all",
-                       "fast_len on Dask data", "numpy integer whose double does not fit its width"],
+                       "fast_len on Dask data", "numpy integer whose double does not fit its width", "N passed by keyword", "fast_len on masked data"],
         assumptions=["N is a Python int, or a NumPy integer scalar of any width that holds it (around the prime powers and 1/97 of the smooth numbers)",
                      "7-smooth reference list generated by nested multiplication, self-checked against trial division"],
         argv=argv)
